@@ -932,12 +932,16 @@ impl Trivia {
             let inside = |anchor: &&Anchor| anchor.start <= offset && offset < anchor.end;
             anchors.iter().rev().find(inside)
         };
-        // Whether the first code after a comment (and any further comments) is a closing `}`, `]` or
-        // `)`: the comment is then the last thing in those brackets.
+        // Whether the first code after a comment (and any further comments and commas) is a closing
+        // `}`, `]` or `)`: the comment is then the last thing in those brackets.
         let before_closer = |offset: usize| {
+            // A trailing `,` of the list it is in does not count as code.
             let mut rest = &source[offset..];
-            while rest.starts_with("//") {
-                rest = rest.find('\n').map_or("", |at| rest[at..].trim_start());
+            while rest.starts_with("//") || rest.starts_with(',') {
+                rest = match rest.strip_prefix(',') {
+                    Some(after) => after.trim_start(),
+                    None => rest.find('\n').map_or("", |at| rest[at..].trim_start()),
+                };
             }
             rest.starts_with(['}', ']', ')'])
         };
